@@ -10,6 +10,8 @@ import (
 	"testing"
 
 	"github.com/relab/hotstuff"
+	"github.com/relab/hotstuff/internal/proto/clientpb"
+	"github.com/relab/hotstuff/verifx/kit"
 	"github.com/relab/hotstuff/protocol/rules"
 	"github.com/relab/hotstuff/verifx/common"
 	"pgregory.net/rapid"
@@ -19,7 +21,7 @@ type tmsg struct {
 	From int    // sender replica id (2..N); 1 = the subject's own timer fires (other fields ignored)
 	DV   int    // view = subject's current view at delivery + DV (DV in -2..3), or a far-future view when DV == 99
 	Kind string // honest | sig-other-view | sig-other-replica | garbage | multi-sig | no-msgsig | bad-msgsig
-	SI   int    // SyncInfo carried: 0 none, 1 genesis QC, 2 genesis QC + view-0 TC, 3 an invalid (single-signature) TC for the stated view, 4 the sender's stale high TC
+	SI   int    // SyncInfo carried: 0 none, 1 genesis QC, 2 genesis QC + view-0 TC, 3 an invalid (single-signature) TC for the stated view, 4 the sender's stale high TC, 5 / 6 a genuine QC for a block of view 1 / 2 (senders are at different heights: what they report differs from the receiver's own high QC)
 	Dup  bool   // deliver the same message twice in a row
 }
 
@@ -58,6 +60,8 @@ func (cl *Cluster) craftTimeout(from *Stack, view hotstuff.View, kind string, si
 	case 4:
 		s.SetQC(hotstuff.NewQuorumCert(nil, 0, hotstuff.GetGenesis().Hash()))
 		s.SetTC(cl.Stacks[0].VS.HighTC()) // a real, by now stale, certificate
+	case 5, 6:
+		s.SetQC(cl.c08QCs[si-5])
 	}
 	tm.SyncInfo = s
 	switch kind {
@@ -98,6 +102,25 @@ func c08Prop(c c08Case) common.Result {
 	sub := cl.Stacks[0]
 	aggregate := c.Rules == rules.NameFastHotStuff
 	q := cl.Quorum()
+	// two certified blocks everybody holds: replicas are at different heights, so the certificates their timeouts report differ
+	cl.c08QCs = nil
+	parent, pqc := hotstuff.GetGenesis(), kit.GenesisQC()
+	for v := hotstuff.View(1); v <= 2; v++ {
+		b := kit.NewBlock(parent.Hash(), pqc, &clientpb.Batch{Commands: []*clientpb.Command{{ClientID: 8, SequenceNumber: uint64(v), Data: []byte("c08")}}}, v, 2)
+		var sigs []hotstuff.QuorumSignature
+		for _, st := range cl.Stacks {
+			st.BC.Store(b)
+			sigs = append(sigs, sigOf(st, b.ToBytes()))
+		}
+		cl.register(b)
+		sig, err := sub.base.Combine(sigs...)
+		if err != nil {
+			return common.Fail("harness", "combine: %v", err)
+		}
+		pqc = hotstuff.NewQuorumCert(sig, v, b.Hash())
+		cl.c08QCs = append(cl.c08QCs, pqc)
+		parent = b
+	}
 	deliver := func(tm hotstuff.TimeoutMsg) {
 		cl.StepNo++
 		cl.Deliver(Msg{From: int(tm.ID) - 1, To: 0, Payload: tm})
@@ -149,6 +172,9 @@ func c08Prop(c c08Case) common.Result {
 				dv = 0
 			}
 			view = hotstuff.View(int64(cur) + int64(dv))
+			if (m.SI == 5 || m.SI == 6) && cur <= 3 {
+				m.SI = 1 // a certificate for a view at or above the receiver's own would move it by itself (not a timeout matter)
+			}
 			kind := m.Kind
 			if !contains(c.Byz, m.From) {
 				kind = "honest" // only Byzantine senders send malformed messages
@@ -320,7 +346,7 @@ func genC08(rt *rapid.T) c08Case {
 			From: rapid.IntRange(1, c.N).Draw(rt, "from"),
 			DV:   rapid.SampledFrom([]int{0, 0, 0, 0, 0, 1, 1, 2, 3, -1, -2, 99}).Draw(rt, "dv"),
 			Kind: rapid.SampledFrom(kinds).Draw(rt, "kind"),
-			SI:   rapid.SampledFrom([]int{0, 1, 1, 2, 3, 4}).Draw(rt, "si"),
+			SI:   rapid.SampledFrom([]int{0, 1, 1, 2, 3, 4, 5, 6}).Draw(rt, "si"),
 			Dup:  rapid.IntRange(0, 4).Draw(rt, "dup") == 0,
 		}
 		c.Msgs = append(c.Msgs, m)
